@@ -28,7 +28,7 @@ package mautil
 //@ func FindHTTPAddrs$1
 //@   property C20
 //@   ghost ps := zero("[]multiaddr.Protocol")
-//@   at call Protocols#1: after ghost ps := result
+//@   at call Protocols: after ghost ps := result
 //@   ensures-local target == nil ==> !result
 //@   ensures-local target != nil ==> (result <==> exists(j, 0, len(ps), ps[j].Code == multiaddr.P_HTTP || ps[j].Code == multiaddr.P_HTTPS))
 //@   loop 1: invariant forall(j, 0, rangeindex + 1, !(ps[j].Code == multiaddr.P_HTTP || ps[j].Code == multiaddr.P_HTTPS))
@@ -49,13 +49,22 @@ package mautil
 //@   ghost pub := false
 //@   ghost unspec := false
 //@   ghost comp := zero("*multiaddr.Component")
-//@   at call SplitFirst#1: after ghost comp := result0
-//@   at call IsPublicAddr#1: after ghost pub := result
-//@   at call IsIPUnspecified#1: after ghost unspec := result
+//@   at call SplitFirst: after ghost comp := result0
+//@   at call IsPublicAddr: after ghost pub := result
+//@   at call IsIPUnspecified: after ghost unspec := result
 //@   ensures-local target == nil ==> result
 //@   ensures-local target != nil && comp == nil ==> !result
 //@   ensures-local count("call:IsPublicAddr") == 1 ==> (result <==> (pub && (count("call:IsIPUnspecified") == 0 || !unspec)))
 //@   ensures-local count("call:IsPublicAddr") == 1 && pub ==> count("call:IsIPUnspecified") == 1
+// which rule applies is decided by the protocol of the first component: the four IP protocols, the four
+// DNS protocols (plain /dns included), everything else passes
+//@   ghost code := 0
+//@   ghost host := 0
+//@   at call Protocol: after ghost code := result.Code
+//@   at call Value: after ghost host := str(result)
+//@   ensures-local comp != nil && (code == multiaddr.P_IP4 || code == multiaddr.P_IP6 || code == multiaddr.P_IP6ZONE || code == multiaddr.P_IPCIDR) ==> count("call:IsPublicAddr") == 1
+//@   ensures-local comp != nil && (code == multiaddr.P_DNS || code == multiaddr.P_DNS4 || code == multiaddr.P_DNS6 || code == multiaddr.P_DNSADDR) ==> count("call:Value") == 1 && (result <==> host != str("localhost"))
+//@   ensures-local comp != nil && !(code == multiaddr.P_IP4 || code == multiaddr.P_IP6 || code == multiaddr.P_IP6ZONE || code == multiaddr.P_IPCIDR || code == multiaddr.P_DNS || code == multiaddr.P_DNS4 || code == multiaddr.P_DNS6 || code == multiaddr.P_DNSADDR) ==> result
 
 //@ func FilterPublic
 //@   property C20
